@@ -25,6 +25,7 @@ FS(v, s)    == [k |-> "float", v |-> v, suf |-> s]
 B(v)        == [k |-> "bool", v |-> v]
 S(v)        == [k |-> "str", v |-> v]
 U           == [k |-> "unit"]
+Ip(v)       == [k |-> "ip", v |-> v]          \* v: index of a concrete address spelling (printer)
 V(n)        == [k |-> "var", n |-> n]
 Neg(e)      == [k |-> "neg", e |-> e]
 Not(e)      == [k |-> "not", e |-> e]
@@ -84,7 +85,7 @@ FlArms(arms, ns) ==
            r == FlArms(Tail(arms), b.ns)
        IN [ns |-> r.ns, arms |-> <<[h EXCEPT !.g = g.is, !.b = b.i]>> \o r.arms]
 Fl(e, ns) ==
-  CASE e.k \in {"int", "float", "bool", "str", "unit", "var"} -> Put(ns, e)
+  CASE e.k \in {"int", "float", "bool", "str", "unit", "ip", "var"} -> Put(ns, e)
     [] e.k \in {"neg", "not", "fld", "try", "let", "assign", "cassign"} ->
          LET a == Fl(e.e, ns) IN Put(a.ns, [e EXCEPT !.e = a.i])
     [] e.k = "bin" ->
@@ -342,6 +343,19 @@ SCtl(t) == <<
                         Blk(<<>>, Blk(<<Let("m", T(t), Bin("sub", V("x"), L(t, 1)))>>, Bin("mul", V("m"), L(t, 2))))))>>,
     Bin("add", V("r"), Call("sign", <<V("r")>>))))>>
 
+(* addresses and prefixes: the one operator whose result type differs from its left operand *)
+SIp == <<
+  Fn("pfx", <<Pm("a", T("IpAddr")), Pm("n", T("u8"))>>, T("Prefix"), Blk(<<
+      Let("p", T("Prefix"), Bin("div", V("a"), V("n")))>>, V("p"))),
+  Fn("keep", <<Pm("a", T("IpAddr")), Pm("c", Bool)>>, T("IpAddr"), Blk(<<
+      LetI("x", V("a")),
+      If1(V("c"), BlkU(<<Asg(<<"x">>, Ip(1))>>)),
+      Let("q", T("Prefix"), Bin("div", V("x"), I(24)))>>, V("x"))),
+  RecordD("Host", <<Pm("addr", T("IpAddr")), Pm("w", T("u8"))>>),
+  Fn("host", <<Pm("h", Named("Host"))>>, T("Prefix"), Blk(<<
+      LetI("g", V("h")),
+      Asg(<<"g", "addr">>, Ip(2))>>, Bin("div", Fld(V("g"), "addr"), Fld(V("g"), "w"))))>>
+
 (* a filtermap over a record, matching on a call result, accept with a value *)
 SFm(t) == <<
   RecordD("Msg", <<Pm("v", T(t)), Pm("ok", Bool)>>),
@@ -428,6 +442,7 @@ Seeds ==
   \cup {Seed("fm_" \o t, SFm(t)) : t \in NumTys}
   \cup {Seed("scope_" \o t, SScope(t)) : t \in NumTys}
   \cup {Seed("widths", SWidths)}
+  \cup {Seed("ipaddr", SIp)}
   \cup TypeSeeds
 
 (* --------------------------------------------------------------- edit operators *)
@@ -514,7 +529,7 @@ AllFamilies == {"operand-bool", "operand-str", "logic-int", "cond-nonbool", "arg
                 "name-undeclared", "name-out-of-scope", "match-drop-arm", "match-after-default",
                 "match-dup-arm", "neg-unsigned", "exit-forbidden", "assign-non-local", "redeclare",
                 "recursive-type", "recursive-const", "elem-type", "return-type", "let-type", "assign-type",
-                "fallthrough-after-loop", "fallthrough-after-shortcircuit", "match-rename-arm", "name-sibling-scope", "recursive-member"}
+                "fallthrough-after-loop", "fallthrough-after-shortcircuit", "cassign-result-type", "match-rename-arm", "name-sibling-scope", "recursive-member"}
 
 (* the rule of the property statement each family breaks *)
 RuleOf(f) ==
@@ -535,7 +550,7 @@ RuleOf(f) ==
     [] f \in {"recursive-type", "recursive-const", "recursive-member"} -> "recursive types or constants"
     [] f = "elem-type"            -> "element type"
     [] f \in {"return-type", "fallthrough-after-loop", "fallthrough-after-shortcircuit"} -> "return type"
-    [] f \in {"let-type", "assign-type"} -> "assigned value type"
+    [] f \in {"let-type", "assign-type", "cassign-result-type"} -> "assigned value type"
 
 (* the sites at which family f applies to program P *)
 Sites(P, f) ==
@@ -651,6 +666,9 @@ Sites(P, f) ==
          (* which is skipped when the left operand decides *)
          {[d |-> x, w |-> w] : x \in {y \in FnIdx(P) : P.decls[y].k = "fn" /\ P.decls[y].ret.k # "unit"
                                                  /\ P.nodes[P.decls[y].body].last # <<>>}, w \in {"and", "or"}}
+    [] f = "cassign-result-type" ->
+         (* an assignment to a place of type IpAddr turned into `place /= 24`: IpAddr / u8 is a Prefix *)
+         {[i |-> j] : j \in {y \in NodesOf(P, {"assign"}) : P.nodes[P.nodes[y].e].k = "ip"}}
     [] f = "let-type" ->
          {[i |-> j, w |-> "let"] : j \in {y \in NodesOf(P, {"let"}) : P.nodes[y].t # <<>>}}
          \cup {[d |-> x, w |-> "const"] : x \in ConstIdx(P)}
@@ -785,6 +803,8 @@ Break(P, f, s) ==
              Q3 == AddNode(Q2, B(s.w = "and"))                            \* true && .. / false || ..
              Q4 == AddNode(Q3, Bin(s.w, NewIdx(Q2), NewIdx(Q1)))
          IN SetNode(Q4, b, [P.nodes[b] EXCEPT !.ss = Append(@, Len(Q4.nodes)), !.last = <<>>])
+    [] f = "cassign-result-type" ->
+         SetNode(SetNode(P, P.nodes[s.i].e, I(24)), s.i, CAsg("div", P.nodes[s.i].p, P.nodes[s.i].e))
     [] f = "let-type" ->
          IF s.w = "let" THEN SetNode(P, P.nodes[s.i].e, WrongLit(P.nodes[s.i].t[1]))
          ELSE SetNode(P, P.decls[s.d].e, WrongLit(P.decls[s.d].t))
